@@ -940,6 +940,112 @@ def _remove_def(tree, node):
     R().visit(tree)
 
 
+class _ImportForm(ast.NodeTransformer):
+    """Spell references to imported objects the way the reference tree's import table of this module spells them."""
+
+    def __init__(self, cur, pinned):
+        self.cur, self.pinned = cur, pinned
+        self.by_target = {}
+        for local, tgt in pinned.items():
+            self.by_target.setdefault(tgt, local)
+        self.shadow = [set()]
+        self.count = 0
+        self.needed = set()
+
+    def _fn(self, node):
+        local = _stored_names(node.body) - {a for a in _import_names(node.body)} | {a.arg for a in ast.walk(node.args) if isinstance(a, ast.arg)}
+        self.shadow.append(local)
+        self.generic_visit(node)
+        self.shadow.pop()
+        return node
+
+    visit_FunctionDef = visit_AsyncFunctionDef = _fn
+
+    def _rewrite(self, node):
+        d = dotted(node)
+        if d is None:
+            return None
+        parts = d.split(".")
+        head = parts[0]
+        if head not in self.cur or any(head in s for s in self.shadow):
+            return None
+        if head in self.pinned and self.pinned[head] == self.cur[head]:
+            return None   # same binding as in the reference tree
+        full = (self.cur[head] + ("." + ".".join(parts[1:]) if len(parts) > 1 else "")).split(".")
+        for i in range(len(full), 0, -1):
+            tgt = ".".join(full[:i])
+            if tgt in self.by_target:
+                local = self.by_target[tgt]
+                new = ast.Name(id=local, ctx=ast.Load())
+                for p in full[i:]:
+                    new = ast.Attribute(value=new, attr=p, ctx=ast.Load())
+                if isinstance(node, (ast.Name, ast.Attribute)):
+                    new.ctx = node.ctx
+                self.needed.add(local)
+                self.count += 1
+                return ast.copy_location(new, node)
+        return None
+
+    def visit_Attribute(self, node):
+        if isinstance(node.ctx, ast.Load):
+            r = self._rewrite(node)
+            if r is not None:
+                return r
+        self.generic_visit(node)
+        return node
+
+    def visit_Name(self, node):
+        if isinstance(node.ctx, ast.Load):
+            r = self._rewrite(node)
+            if r is not None:
+                return r
+        return node
+
+
+def _import_names(stmts):
+    out = set()
+    for st in stmts:
+        for x in ast.walk(st):
+            if isinstance(x, (ast.Import, ast.ImportFrom)):
+                for al in x.names:
+                    out.add((al.asname or al.name).split(".")[0])
+    return out
+
+
+def import_normal_form(repo, known, rebuild):
+    notes, changed = [], set()
+    for rel, m in repo.modules.items():
+        pinned = known.get("imports", {}).get(rel)
+        if pinned is None:
+            continue
+        cur = dict(m.imports)
+        if all(cur.get(k) == v for k, v in pinned.items()) and all(k in pinned for k in cur):
+            continue
+        tr = _ImportForm(cur, pinned)
+        tr.visit(m.tree)
+        if not tr.count:
+            continue
+        # make the reference spellings resolvable again
+        new_imports = []
+        for local in sorted(tr.needed):
+            if m.imports.get(local) == pinned[local]:
+                continue
+            tgt = pinned[local]
+            if "." in tgt:
+                mod, last = tgt.rsplit(".", 1)
+                new_imports.append(ast.ImportFrom(module=mod, names=[ast.alias(name=last, asname=local if local != last else None)], level=0))
+            else:
+                new_imports.append(ast.Import(names=[ast.alias(name=tgt, asname=local if local != tgt else None)]))
+        pos = 1 if m.tree.body and isinstance(m.tree.body[0], ast.Expr) and isinstance(getattr(m.tree.body[0], "value", None), ast.Constant) else 0
+        m.tree.body[pos:pos] = new_imports
+        ast.fix_missing_locations(m.tree)
+        changed.add(rel)
+        notes.append("%d reference(s) in %s re-spelled through the reference import table (%s)" % (tr.count, rel, ", ".join(sorted(tr.needed))))
+    if changed:
+        rebuild(repo, changed)
+    return notes
+
+
 def normalize(repo, rebuild):
     """Expand unknown helpers/constants in `repo` (a raw Repo).  `rebuild(repo, rels)` re-indexes the changed modules.
 
@@ -947,6 +1053,7 @@ def normalize(repo, rebuild):
     known = load_known()
     notes = []
     changed = set()
+    notes += import_normal_form(repo, known, rebuild)
 
     # -- constants ----------------------------------------------------------------------------------------------------
     consts = unknown_constants(repo, known)
